@@ -28,13 +28,15 @@ StatusOK(e) ==
 EnumOK(e) == IF e.defined THEN e.disc = e.code /\ Means(Reg(e.table), e.code, e.sym) ELSE TRUE
 (* every value the properties rely on must be recognised *)
 Required(t) == CASE t = "delim" -> {1, 2, 3, 4, 5}
-                 [] t = "vtag"  -> DOMAIN ValueTagReg
+                 [] t = "vtag"  -> {16, 18, 19, 33, 34, 35, 48, 49, 50, 51, 52, 53, 54, 55, 65, 66, 68, 69, 70, 71, 72, 73, 74}
                  [] t = "op"    -> {2, 5, 6, 8, 9, 10, 11, 18, 16386, 16388}
                  [] t = "printer-state" -> {3, 4, 5}
                  [] t = "status" -> DOMAIN StatusReg
                  [] OTHER -> {}
 RequiredOK(e) == e.code \in Required(e.table) => e.defined
-Step(e) == CASE e.ev = "status" -> StatusOK(e)
+VersionOK(e) == e.code \in DOMAIN VersionReg /\ VersionReg[e.code] = e.name
+Step(e) == CASE e.ev = "version" -> VersionOK(e)
+             [] e.ev = "status" -> StatusOK(e)
              [] e.ev = "enum"   -> EnumOK(e) /\ RequiredOK(e)
              [] OTHER -> FALSE
 Init == l = 1
